@@ -86,3 +86,13 @@ func VerifResolveBisyncNamespace(cli client.Redis, output config.RedisConfig, id
 	s := &syncer{cfg: SyncerConfig{Output: output}, logger: log.WithLogger("[verif] ")}
 	return s.resolveBisyncCheckpointNameWithClient(cli, ids, checkpoint.BisyncModeFromReplayMode(mode), bisyncRecoverySlotsForConfig(output))
 }
+
+// VerifChoseKeyInSlots is choseKeyInSlots : the checkpoint key a transactional link to a cluster shard picks inside the
+// shard's slot ranges.
+func VerifChoseKeyInSlots(prefix string, ranges [][2]int) string {
+	slots := &config.RedisSlots{}
+	for _, r := range ranges {
+		slots.Ranges = append(slots.Ranges, config.RedisSlotRange{Left: r[0], Right: r[1]})
+	}
+	return choseKeyInSlots(prefix, slots)
+}
